@@ -596,8 +596,16 @@ def c17(run):
         m = hs.store_object("bound-pid", src)
         hs.store_metadata("bound-pid", doc)
         hs.store_metadata("bound-pid", doc, "fmt-x")
-        ctx = {"src": src, "data": data, "open": [], "meta": m}
-        sha = hashlib.sha256(data).hexdigest()
+        # an object stored WITHOUT a pid (what delete_if_invalid_object is for) and a pid that has metadata but no object
+        other = b"unreferenced-content-for-c17"
+        osrc = os.path.join(base, "osrcfile")
+        with open(osrc, "wb") as fh:
+            fh.write(other)
+        m_unref = hs.store_object(None, osrc)
+        hs.store_metadata("meta-only-pid", doc)
+        hs.store_metadata("meta-only-pid", doc, "fmt-x")
+        ctx = {"src": src, "data": data, "open": [], "meta": m_unref}
+        sha = hashlib.sha256(other).hexdigest()
         bad_str = ["N", S(""), S(" "), S("a b"), S("\t"), S("a\nb"), S("x\x1c")]
         bad_algo = [S("sha-3"), S("md6"), S("sha256x"), S("sm3"), S("SHA-2560")]
         bad_size = ["I0", "I-1", "U", S("5"), "F", "Z", "Y"]
@@ -638,6 +646,17 @@ def c17(run):
                 v[i], v[j] = rng.choice(bads[i]), rng.choice(bads[j])
                 cases.append((meth, v))
         # unknown pid for retrieve / delete / get_hex_digest, absent metadata document
+        # an invalid argument together with a VALID BUT MISMATCHING one: the rejection comes first and nothing is judged or deleted
+        for balgo in bad_algo:
+            cases.append(("delete_if_invalid_object", ["O", S(sha), balgo, "I%d" % (len(other) + 7)]))
+            cases.append(("delete_if_invalid_object", ["O", S("0" * 64), balgo, "N"]))
+            cases.append(("store_object", [S("new-pid"), S(src), "N", S("0" * 64), balgo, "I%d" % (len(data) + 7)]))
+            cases.append(("store_object", [S("new-pid"), S(src), balgo, "N", "N", "I%d" % (len(data) + 7)]))
+        for bsz in bad_size:
+            cases.append(("delete_if_invalid_object", ["O", S("0" * 64), S("SHA-256"), bsz]))
+            cases.append(("store_object", [S("new-pid"), S(src), "N", S("0" * 64), S("MD5"), bsz]))
+        # unknown pid that nevertheless has metadata documents
+        cases += [("delete_object", [S("meta-only-pid")]), ("retrieve_object", [S("meta-only-pid")]), ("get_hex_digest", [S("meta-only-pid"), S("sha256")])]
         cases += [("retrieve_object", [S("unknown-pid")]), ("delete_object", [S("unknown-pid")]),
                   ("get_hex_digest", [S("unknown-pid"), S("md5")]), ("retrieve_metadata", [S("unknown-pid"), "N"]),
                   ("retrieve_metadata", [S("bound-pid"), S("no-such-format")]),
@@ -691,10 +710,20 @@ def c17(run):
                     pass
             # documented classes for the documented conditions
             want = None
-            if meth in ("retrieve_object", "delete_object", "get_hex_digest") and v[0] == S("unknown-pid"):
+            if meth in ("retrieve_object", "delete_object", "get_hex_digest") and v[0] in (S("unknown-pid"), S("meta-only-pid")):
                 want = "PidRefsDoesNotExist"
             if want and gi != want:
                 run.violation({"kind": "class", "method": meth}, "%s on an unknown pid raised %s, documented class is %s" % (meth, gi, want), {"method": meth, "args": v})
+            # an unsupported algorithm name, all other arguments well-formed (possibly mismatching the content): UnsupportedAlgorithm, nothing touched
+            algpos = {"store_object": [2, 4], "delete_if_invalid_object": [2], "get_hex_digest": [1]}.get(meth, [])
+            wellformed = all((v[i] in valid or v[i][0] == "I" and int(v[i][1:]) >= 1 or (v[i][0] == "S" and len(v[i]) > 20)) for i in range(len(v)) if i not in algpos) \
+                if (valid := METHODS[meth][0]) else False
+            if any(v[i] in bad_algo for i in algpos) and all(v[i] in bad_algo or v[i] in ("N", valid[i]) for i in algpos) and wellformed \
+                    and not (meth == "store_object" and v[4] in bad_algo and v[3] == "N"):
+                if gi != "UnsupportedAlgorithm" or changed:
+                    run.violation({"kind": "unsupported-algorithm", "method": meth, "class": gi},
+                                  "%s with an unsupported algorithm name (other arguments well-formed) -> %s%s; documented: UnsupportedAlgorithm, store unchanged" % (
+                                      meth, gi, " and the store changed" if changed else ""), {"method": meth, "args": v, "outcome": gi})
     finally:
         shutil.rmtree(base, ignore_errors=True)
 
@@ -892,6 +921,40 @@ def c14(run):
                     if a not in ALGOS:
                         run.violation({"kind": "unsupported-accepted", "algorithm": a}, "a store was created with the unsupported store algorithm %r" % a, {"created_with": create})
             shutil.rmtree(sub, ignore_errors=True)
+        # ---- histories at ONE path within one process: the store is removed and created again with another configuration;
+        #      what pins the configuration is the hashstore.yaml that is there now, nothing remembered from earlier opens
+        root = os.path.join(base, "reused", "store")
+        prev = None
+        for i in range(12 if quick else 80):
+            cfg_ = (rng.randint(1, 5), rng.randint(1, 4), rng.choice(list(ALGOS)), rng.choice([DEFAULT_NS, NS2]))
+            shutil.rmtree(os.path.dirname(root), ignore_errors=True)
+            mk = lambda c_: {"store_path": root, "store_depth": c_[0], "store_width": c_[1], "store_algorithm": c_[2], "store_metadata_namespace": c_[3]}
+            seq_ = []
+            try:
+                hs_ = F(mk(cfg_))
+                seq_.append("create%s" % (cfg_,))
+                src = os.path.join(base, "reuse-src")
+                with open(src, "wb") as fh:
+                    fh.write(b"reuse-%d" % i)
+                hs_.store_object("pid-reuse", src)
+                F(mk(cfg_))
+                seq_.append("open-same")
+                ok_same = True
+            except Exception as e:  # noqa: BLE001
+                ok_same = False
+                seq_.append("raised " + exn_name(e))
+            run.case("search-path-reuse", (i, cfg_), sample={"search": "one path, store removed and re-created", "configuration": list(cfg_), "previous": list(prev) if prev else None})
+            if not ok_same:
+                run.violation({"kind": "reuse-refused"}, "a store re-created at a path that earlier held a store with %s cannot be created / opened with its own configuration %s (%s)" % (prev, cfg_, seq_),
+                              {"previous": prev, "configuration": cfg_})
+            elif prev is not None and prev != cfg_:
+                try:
+                    F(mk(prev))
+                    run.violation({"kind": "reuse-stale-accepted"}, "a store created with %s at a path that earlier held one created with %s is opened with the EARLIER configuration" % (cfg_, prev),
+                                  {"previous": prev, "configuration": cfg_})
+                except Exception:  # noqa: BLE001
+                    pass
+            prev = cfg_
     finally:
         shutil.rmtree(base, ignore_errors=True)
 
